@@ -53,6 +53,7 @@ package remedies
 //@   ensures[store-if-absent] seq: forall(k, CacheKey, old(in(k, rbtCache(plugin).cache)) && old(now()) <= old(rbtCache(plugin).cache[k].expirationTimeNano) && now() <= old(rbtCache(plugin).cache[k].expirationTimeNano) ==> in(k, rbtCache(plugin).cache) && rbtCache(plugin).cache[k] == old(rbtCache(plugin).cache[k]))
 //@   ensures[only-own-key] seq: forall(k, CacheKey, k != CacheKey{onResponse.Method, onResponse.URL} ==> (in(k, rbtCache(plugin).cache) <==> old(in(k, rbtCache(plugin).cache))) && rbtCache(plugin).cache[k] == old(rbtCache(plugin).cache[k]))
 //@   ensures[stored-is-this-response] seq: in(CacheKey{onResponse.Method, onResponse.URL}, rbtCache(plugin).cache) && !old(in(CacheKey{onResponse.Method, onResponse.URL}, rbtCache(plugin).cache)) ==> rbtCache(plugin).cache[CacheKey{onResponse.Method, onResponse.URL}].value.Status == onResponse.Status && rbtCache(plugin).cache[CacheKey{onResponse.Method, onResponse.URL}].value.Body == onResponse.Body && rbtCache(plugin).cache[CacheKey{onResponse.Method, onResponse.URL}].value.Headers == onResponse.Headers
+//@   ensures[kept-for-retry-after] seq: retryAfterSeconds >= 0.0 && in(CacheKey{onResponse.Method, onResponse.URL}, rbtCache(plugin).cache) && !old(in(CacheKey{onResponse.Method, onResponse.URL}, rbtCache(plugin).cache)) ==> real(rbtCache(plugin).cache[CacheKey{onResponse.Method, onResponse.URL}].expirationTimeNano) <= real(now()) + 1000000000.0 * retryAfterSeconds && real(rbtCache(plugin).cache[CacheKey{onResponse.Method, onResponse.URL}].expirationTimeNano) > real(old(now())) + 1000000000.0 * retryAfterSeconds - 1.0
 
 // ---------------------------------------------------------------- caching remedy (C12)
 //@ ghost func cpCache(p *CachingPlugin) *utils.MemoryCache[CachingPluginKey,CachedResponse] = p.responseCache.(*utils.MemoryCache[CachingPluginKey,CachedResponse])
@@ -78,6 +79,7 @@ package remedies
 //@   ensures[store-if-absent] seq: forall(k, CachingPluginKey, old(in(k, cpCache(plugin).cache)) && now() <= old(cpCache(plugin).cache[k].expirationTimeNano) ==> in(k, cpCache(plugin).cache) && cpCache(plugin).cache[k] == old(cpCache(plugin).cache[k]))
 //@   ensures[only-own-key] seq: forall(k, CachingPluginKey, k != CachingPluginKey{onResponse.Method, onResponse.URL, extractHashedPathParams(pathParams, remedyConfig.RequestPayloadPaths)} ==> (in(k, cpCache(plugin).cache) <==> old(in(k, cpCache(plugin).cache))) && cpCache(plugin).cache[k] == old(cpCache(plugin).cache[k]))
 //@   ensures[stored-is-this-response] seq: in(CachingPluginKey{onResponse.Method, onResponse.URL, extractHashedPathParams(pathParams, remedyConfig.RequestPayloadPaths)}, cpCache(plugin).cache) && !old(in(CachingPluginKey{onResponse.Method, onResponse.URL, extractHashedPathParams(pathParams, remedyConfig.RequestPayloadPaths)}, cpCache(plugin).cache)) ==> cpCache(plugin).cache[CachingPluginKey{onResponse.Method, onResponse.URL, extractHashedPathParams(pathParams, remedyConfig.RequestPayloadPaths)}].value.Status == onResponse.Status && cpCache(plugin).cache[CachingPluginKey{onResponse.Method, onResponse.URL, extractHashedPathParams(pathParams, remedyConfig.RequestPayloadPaths)}].value.Body == onResponse.Body
+//@   ensures[kept-for-the-configured-ttl] seq: remedyConfig.TTLSeconds >= 0.0 && in(CachingPluginKey{onResponse.Method, onResponse.URL, extractHashedPathParams(pathParams, remedyConfig.RequestPayloadPaths)}, cpCache(plugin).cache) && !old(in(CachingPluginKey{onResponse.Method, onResponse.URL, extractHashedPathParams(pathParams, remedyConfig.RequestPayloadPaths)}, cpCache(plugin).cache)) ==> real(cpCache(plugin).cache[CachingPluginKey{onResponse.Method, onResponse.URL, extractHashedPathParams(pathParams, remedyConfig.RequestPayloadPaths)}].expirationTimeNano) <= real(now()) + 1000000000.0 * real(remedyConfig.TTLSeconds) && real(cpCache(plugin).cache[CachingPluginKey{onResponse.Method, onResponse.URL, extractHashedPathParams(pathParams, remedyConfig.RequestPayloadPaths)}].expirationTimeNano) > real(old(now())) + 1000000000.0 * real(remedyConfig.TTLSeconds) - 1.0
 //@   ensures[size-bound] seq: cpCache(plugin).currentCacheSize > old(cpCache(plugin).currentCacheSize) ==> cpCache(plugin).currentCacheSize <= real(remedyConfig.MaxCacheSizeMegabytes)
 
 // ---------------------------------------------------------------- retry remedy, policy mode (C17)
